@@ -676,5 +676,247 @@ def run(ctx):
                 comp.to_file(stem, file_types=(ext,))
                 corr['doc_again'] = parse_doc(stem + '.' + ext, ext)
                 batch.append(corr)
+    hash_stream(ctx, ExcelCompiler, batch)
+    inexact_stream(ctx, ExcelCompiler)
     correspondence(ctx, batch)
     shutil.rmtree(ctx.work, ignore_errors=True)
+
+
+# ------------------------------------------------------------------ settings: the source hash
+def hash_stream(ctx, ExcelCompiler, batch):
+    """Models compiled from an .xlsx FILE (so that a source hash exists); between compiling and saving, and again
+    between loading and re-saving, the workbook file is left alone / rewritten with other contents / deleted /
+    restored.  The hash recorded at compile time is what must travel: `_excel_file_md5_digest` and `hash_matches`
+    of the loaded model (and of a model loaded from a save of the loaded model) equal the original's, the text
+    documents carry that hash, and `hash_matches` says what an independent md5 of the file on disk says."""
+    from harness.common import jsonable
+    rng = ctx.rng
+    acts1 = ['untouched', 'modified', 'deleted']
+    acts2 = ['untouched', 'modified', 'deleted', 'restored']
+
+    def disk_hash(p):
+        return file_hash(p) if os.path.exists(p) else None
+
+    for k in range(ctx.n(18, 150)):
+        wb = wbgen.gen_workbook(rng, ncells=rng.randrange(4, 8), pool=wbgen.CLEAN_POOL)
+        desc = [(x['addr'], x.get('value'), x.get('text')) for x in wb.nodes]
+        ext = ['yml', 'json', 'pkl'][k % 3]
+        act1 = acts1[(k // 3) % 3] if k < 9 else rng.choice(acts1)
+        act2 = rng.choice(acts2)
+        case = dict(call='persist-hash', workbook=desc, args=[ext, act1, act2])
+        xlsx = os.path.join(ctx.work, f'hbook{k}.xlsx')
+        stem = os.path.join(ctx.work, f'h{k}')
+        ctx.count(('hash', k), kind=f'source-hash:{ext}:{act1}:{act2}', sample=case)
+
+        def rewrite(other):
+            """the workbook file with another value in its first input cell (or with the original contents)"""
+            i0 = wb.inputs()[0]
+            v = wb.nodes[i0]['value']
+            wb.to_openpyxl(inputs={i0: (v + 1000) if isinstance(v, int) and not isinstance(v, bool)
+                                   else 4242} if other else None).save(xlsx)
+
+        def apply(act, original_bytes):
+            if act == 'modified':
+                rewrite(True)
+            elif act == 'deleted':
+                if os.path.exists(xlsx):
+                    os.remove(xlsx)
+            elif act == 'restored':
+                with open(xlsx, 'wb') as f:
+                    f.write(original_bytes)
+
+        try:
+            rewrite(False)
+            original_bytes = open(xlsx, 'rb').read()
+            h0 = hashlib.md5(original_bytes).hexdigest()
+            orig = ExcelCompiler(filename=xlsx)
+            for i in wb.cells():
+                orig.evaluate(wb.nodes[i]['addr'])
+            if orig._excel_file_md5_digest != h0:
+                ctx.violation(dict(case, leg='compile'), "the hash recorded at compile time is not the md5 of the workbook file",
+                              impl=orig._excel_file_md5_digest, expected=h0)
+            apply(act1, original_bytes)
+            want_match = disk_hash(xlsx) == h0
+            if orig.hash_matches != want_match:
+                ctx.violation(dict(case, leg='original'), "hash_matches of the original disagrees with the file on disk",
+                              impl=orig.hash_matches, expected=want_match)
+            corr = corr_capture(orig, wb, ext, False)
+            orig.to_file(stem, file_types=(ext,))
+            fname = stem + '.' + ext
+            if ext != 'pkl':
+                doc = parse_doc(fname, ext)
+                if doc.get('excel_hash') != h0:
+                    ctx.violation(dict(case, leg='saved document'),
+                                  "the saved excel_hash is not the hash recorded when the model was compiled",
+                                  impl=doc.get('excel_hash'), expected=h0)
+            loaded = ExcelCompiler.from_file(fname)
+            if loaded._excel_file_md5_digest != orig._excel_file_md5_digest:
+                ctx.violation(dict(case, leg='loaded'), "the source hash does not survive the trip",
+                              impl=loaded._excel_file_md5_digest, expected=orig._excel_file_md5_digest)
+            if loaded.hash_matches != orig.hash_matches:
+                ctx.violation(dict(case, leg='loaded'), "hash_matches of the loaded model differs from the original's",
+                              impl=loaded.hash_matches, expected=orig.hash_matches)
+            if loaded.filename != orig.filename:
+                ctx.violation(dict(case, leg='loaded'), "workbook file name does not survive the trip",
+                              impl=loaded.filename, expected=orig.filename)
+            ops = [['eval', wb.nodes[i]['addr']] for i in wb.cells()]
+            want, got = run_ops(orig, ops), run_ops(loaded, ops)
+            if jsonable(want) != jsonable(got):
+                first = next(i for i, (a, b) in enumerate(zip(jsonable(got), jsonable(want))) if a != b)
+                ctx.violation(dict(case, history=ops[:first + 1]),
+                              "the loaded model answers a history differently from the original",
+                              impl=got[first], expected=want[first])
+            # ---- a save of the loaded model, wherever the workbook file is by then
+            apply(act2, original_bytes)
+            want_match = disk_hash(xlsx) == h0
+            loaded.to_file(stem + '_again', file_types=(ext,))
+            doc2 = None
+            if ext != 'pkl':
+                doc2 = parse_doc(stem + '_again.' + ext, ext)
+                if doc2.get('excel_hash') != h0:
+                    ctx.violation(dict(case, leg='document saved by the loaded model'),
+                                  "re-saving a loaded model does not keep the source hash",
+                                  impl=doc2.get('excel_hash'), expected=h0)
+            l2 = ExcelCompiler.from_file(stem + '_again.' + ext)
+            if l2._excel_file_md5_digest != h0:
+                ctx.violation(dict(case, leg='loaded from the save of the loaded model'),
+                              "re-saving a loaded model does not keep the source hash",
+                              impl=l2._excel_file_md5_digest, expected=h0)
+            for name, m in (('original', orig), ('loaded', loaded), ('reloaded (saved by the loaded model)', l2)):
+                if m.hash_matches != want_match:
+                    ctx.violation(dict(case, leg=name, after=act2),
+                                  f"hash_matches of the {name} model disagrees with the file on disk",
+                                  impl=m.hash_matches, expected=want_match)
+            if corr is not None:
+                corr.update(case=case, k=('hash', k), place='same', astral=False, ops=ops, want=jsonable(want),
+                            got=jsonable(got), meta=dict(cycles=jsonable(loaded.cycles), filename=loaded.filename))
+                if ext != 'pkl':
+                    corr['doc'], corr['doc2'] = doc, doc2
+                batch.append(corr)
+        except Exception as exc:      # noqa: BLE001
+            ctx.violation(dict(case, leg='exception'), f"compile/save/load raises {type(exc).__name__}: {exc}"[:200])
+        finally:
+            for f in os.listdir(ctx.work):
+                if f.startswith(f'h{k}.') or f.startswith(f'h{k}_again') or f == f'hbook{k}.xlsx':
+                    os.remove(os.path.join(ctx.work, f))
+
+
+# ------------------------------------------------------------------ numbers outside the float-exact domain
+INEXACT_POOL = [0.1, 0.2, 0.3, 0.7, 1.1, 2.5, 7.25, 1e-7, 1e-3, 1e16, 1e22, 1 / 3, 2 / 3, 123456789.125, 3, 7, -4,
+                4, 100, -0.1, 1e-7, 0.1, 2.5]
+INEXACT_OTHER = ['text', '12', True, False, None, '']
+INEXACT_AGGS = ['SUM', 'SUM', 'AVERAGE', 'COUNT', 'MAX', 'MIN']
+
+
+def typed(v):
+    """a value with the exact class of every scalar in it: ('float', '0.1') — a float subclass (ruamel's ScalarFloat),
+    a numpy scalar or a plain float holding the same number are three different things here"""
+    if isinstance(v, (tuple, list)):
+        return [type(v).__name__] + [typed(x) for x in v]
+    return [type(v).__module__ + '.' + type(v).__name__, repr(v)]
+
+
+def inexact_stream(ctx, ExcelCompiler):
+    """Implementation against implementation (no Coq model: the numbers are outside the float-exact domain): a
+    column of constants such as 0.1, 2.5, 1e-7, 1e22, 1/3 (some text / boolean / blank cells among them) under
+    SUM / AVERAGE / COUNT / MAX / MIN of ranges and cell arithmetic; the same history of set_value/evaluate on the
+    original and on the model loaded from yml, json and pkl; compared after every operation: repr AND exact class
+    of the returned value and of the value of every cell of the cell map."""
+    rng = ctx.rng
+    for k in range(ctx.n(36, 400)):
+        nconst = rng.randrange(3, 8)
+        consts = [rng.choice(INEXACT_POOL) if rng.random() < 0.85 else rng.choice(INEXACT_OTHER) for _ in range(nconst)]
+        if k % 4 == 0:          # the reported shape: a few floats of very different magnitude and an int under SUM
+            consts = rng.sample([2.5, 3, 1e-7, 0.1, 1e22, 1 / 3, 0.7], min(nconst, 7))
+        texts = []
+        nrows = nconst
+        for _ in range(rng.randrange(2, 5)):
+            r1 = rng.randrange(1, nrows)
+            r2 = rng.randrange(r1 + 1, nrows + 1)
+            agg = rng.choice(INEXACT_AGGS)
+            shape = rng.random()
+            if shape < 0.55:
+                t = f'={agg}(A{r1}:A{r2})'
+            elif shape < 0.7:
+                t = f'={agg}(A{r1}:A{r2})+A{rng.randrange(1, nrows + 1)}'
+            elif shape < 0.8:
+                t = f'={agg}(A{r1},A{r2},A{rng.randrange(1, nrows + 1)})'
+            elif shape < 0.9:
+                t = f'=A{r1}*A{r2}'
+            else:
+                t = f'=IF(COUNT(A{r1})=1,A{r1}+A{r2},"no")'
+            texts.append(t)
+            nrows += 1
+        if k % 4 == 0:
+            texts[0] = f'=SUM(A1:A{nconst})'
+
+        def build():
+            import openpyxl
+            owb = openpyxl.Workbook()
+            ws = owb.active
+            ws.title = wbgen.SHEET
+            for r, v in enumerate(consts, 1):
+                if v is not None:
+                    ws.cell(row=r, column=1, value=v)
+            for r, t in enumerate(texts, nconst + 1):
+                ws.cell(row=r, column=1, value=t)
+            return owb
+        addrs = [wbgen.cell_addr(r) for r in range(1, nrows + 1)]
+        desc = [(a, v, None) for a, v in zip(addrs, consts)] + [(a, None, t) for a, t in zip(addrs[nconst:], texts)]
+        ops = []
+        for _ in range(rng.randrange(6, 11)):
+            if rng.random() < 0.45:
+                ops.append(['set', addrs[rng.randrange(nconst)],
+                            rng.choice(INEXACT_POOL) if rng.random() < 0.9 else rng.choice(INEXACT_OTHER)])
+            else:
+                ops.append(['eval', addrs[rng.randrange(nconst, nrows)]])
+        ops.append(['eval', addrs[nconst]])
+        for ext in ('yml', 'json', 'pkl'):
+            case = dict(call='persist-inexact', workbook=desc, args=[ext, 'plain', 'same'])
+            ctx.count(('inexact', k, ext), kind=f'inexact-numbers:{ext}', sample=case if ext == 'yml' else None)
+            stem = os.path.join(ctx.work, f'x{k}')
+            try:
+                orig = ExcelCompiler(excel=build())
+                for a in addrs:
+                    orig.evaluate(a)
+                orig.to_file(stem, file_types=(ext,))
+                loaded = ExcelCompiler.from_file(stem + '.' + ext)
+                for a in addrs:           # both caches complete: the cell maps are comparable cell by cell
+                    loaded.evaluate(a)
+            except Exception as exc:      # noqa: BLE001
+                ctx.violation(dict(case, leg='save/load'), f"build/save/load raises {type(exc).__name__}: {exc}"[:200])
+                continue
+            finally:
+                for f in os.listdir(ctx.work):
+                    if f.startswith(f'x{k}.'):
+                        os.remove(os.path.join(ctx.work, f))
+
+            def observe(comp, op):
+                try:
+                    if op[0] == 'eval':
+                        r = ['ok', typed(comp.evaluate(op[1]))]
+                    else:
+                        comp.set_value(op[1], op[2])
+                        r = ['ok', None]
+                except Exception as exc:      # noqa: BLE001
+                    r = ['raise', type(exc).__name__]
+                return r, {a: typed(c.value) for a, c in comp.cell_map.items()}
+            for j in range(-1, len(ops)):
+                if j < 0:       # right after the load
+                    rw = rg = None
+                    sw = {a: typed(c.value) for a, c in orig.cell_map.items()}
+                    sg = {a: typed(c.value) for a, c in loaded.cell_map.items()}
+                else:
+                    (rw, sw), (rg, sg) = observe(orig, ops[j]), observe(loaded, ops[j])
+                hist = ops[:j + 1]
+                if rw != rg:
+                    ctx.violation(dict(case, history=hist),
+                                  "the loaded model answers a history differently from the original (repr / class of the value)",
+                                  impl=rg, expected=rw)
+                    break
+                if sw != sg:
+                    bad = sorted(set(sw) ^ set(sg)) or [a for a in sw if sw[a] != sg[a]]
+                    ctx.violation(dict(case, history=hist, cell=bad[0]),
+                                  "a cell of the loaded model holds another value (repr / class) than the same cell of the original",
+                                  impl=sg.get(bad[0]), expected=sw.get(bad[0]))
+                    break
